@@ -17,6 +17,22 @@
   The type table itself is pinned: `table_is_standard` says that the table regenerated from
   `iparse.dsfmt_get` is the hand-written table of the 18 standard types of `Spec/StreamWire.lean` (ids,
   signedness, width, kind, fraction bits), which is the one the specification `wireSample` reads.
+
+  COVERAGE LIMITS (round-4 review A8) — inside the property's quantifier, outside theorems and check:
+  * user-defined formats: the model's `Code` has the 13 struct letters `B b H h I i Q q f d ? c s`.  The real
+    code hands the format string to `struct` and so also decodes `l L` (as `i I`), `e` (half float), `x` (pad
+    byte, no value), `p` (Pascal string) and blanks between items ("2l", "L", "e", "hxxb", "4p", "h h" decode on
+    /repo); the driver answers `bad-op` for them, the generators never produce them: "user-defined types per their
+    format" is proved and checked for formats over the 13 letters only.
+  * a layout is a LIST indexed by the channel id on the wire (`layout[chan]`), as `Device.channel_get` indexes
+    its channel list: devices whose channel list is not in id order are not covered.  On /repo
+    `Device(2, …, [DeviceChannel(5, …), DeviceChannel(3, …)])` decodes wire ids 0, 1 to samples carrying
+    `chan = 5` and `chan = 3` (the `chan` field of the list entry, not the id on the wire); every device the
+    harness builds has `channels[i].chan = i`.
+  * glue: for char bytes that are not valid UTF-8 only "a `str`, no exception, sample structure" is judged
+    (`t~len`); metadata elements are compared as `int(m)`.
+  * the numeric codes of the data KIND of a sample (`EParseDataType`: NONE / NUM / CHAR / COMPLEX) are matched
+    by name by the glue and not judged by the oracle: no property mentions them.
 -/
 import NxsModel.Stream
 import NxsModel.Spec.StreamWire
